@@ -49,6 +49,14 @@ CHECKS = {
         note=COMMON_NOTE + "serde_json's acceptance (depth limit 128, lenient scanner for unknown members, number range) is modelled and calibrated by the differential run.",
         technique="Coq proof over the model (first-bad-frame containment) + corruption-corpus differential execution",
         design="5/C06"),
+    "C17": dict(
+        text="Theorems: parse (print j) = j for every well-formed JSON value nested < 127 deep (text/bytes front end) and the writer never emits NUL; "
+             "Request/Reply/ServiceInfo: deserialize(serialize r) = r through a Value for every record outside the Some(null) class, unset optionals omitted "
+             "(instantiated at schemas regenerated from the struct definitions); string sets: object of empty objects, read back from Value and from text "
+             "(instantiated at the translated visitor loop). Tie: to_string/to_vec/to_value x from_str/from_slice/from_value on generated values and objects.",
+        note=COMMON_NOTE + "serde-derive and serde_json semantics are modelled; f64 text conversion trusted. Known finding: Option<Value> = Some(null) reads back as None.",
+        technique="Coq proof (JSON reader/writer round trip by induction; schema interpreter lemmas at regenerated schemas) + differential execution",
+        design="5/C17"),
 }
 
 ALL = ["C%02d" % i for i in range(1, 21)]
